@@ -19,6 +19,10 @@ add("C01", E2,
     "Runtime monitor: real TableManager + real PeerSession (on_established, handle_prefix_update, do_route_refresh, flush_tx) over a loopback TCP pair; seeded histories of announce / withdraw / peer-down / GR stale+purge / LLGR mark+purge / next-hop flap / export-policy change + soft reset out / import-policy change + soft reset in / route refresh, interleaved with partial event delivery and flushes, for all 5 neighbour roles, Add-Path send-max 1-3, 1/2/4 shards, observer optionally a source itself. Bytes read from the client socket are decoded by the peer-side codec into a mirror Adj-RIB-In; at each quiescent check point the mirror must equal what a brand-new session with identical parameters is sent (which then becomes the next observer). Failing histories are delta-debugged.",
     "Trusted: the peer-side decode (repo codec, negotiate(remote,local)) and the quiescence procedure (KEEPALIVE sentinel through the same socket). Sequential histories; source peers are TableManager calls in the daemon's own call order.",
     "runtime monitoring: differential oracle (incremental view vs fresh-session dump) over generated histories with delivery/flush interleavings")
+add("C02", E1,
+    "Runtime monitor: one prefix (IPv4 and an EVPN type-2 NLRI) in the real Table with candidate paths drawn from small colliding domains (LOCAL_PREF, AS_PATH incl. SET/confed and 255/256/300/510 hops, ORIGIN, roles, stale/LLGR-stale flags and community, CLUSTER_LIST, ORIGINATOR_ID/router-id, MAC-mobility, filtered / next-hop-invalid); an exhaustive step matrix (every pair differing at step k with earlier steps equal), all permutations of up to 5 paths, and random histories (insert/replace/remove/drop/restale/LLGR/purges/next-hop flips) checked after every op against a reference strict-weak order written from the statement: maximal (ties legal), ranked, prefix (top-N and ECMP run), history-free. Debug+release.",
+    "Trusted: the reference order (a dozen lines, literal transcription of the statement). ECMP on the EVPN NLRI, MAC-mobility seq 0 vs absent and TableQuery::RsLocal are not judged.",
+    "runtime monitoring: reference-order oracle; exhaustive small-domain matrix + permutations + random histories")
 add("C04", E1,
     "Runtime monitor: Message values over all 19 real address families (entry counts from 0 to several frames, family-maximum NLRI sizes, attribute blocks grown to and past the frame limit, OPENs around the 253-byte limit, values obtained by decoding hand-written wire forms) are encoded by the real encode_to under 256 ordered pairs of capability sets; an independent framer + structural walker checks marker, lengths, negotiated maximum, mutual consistency and frame count; the peer's negotiated codec must decode the same multiset of (prefix, path-id), next hop and attributes up to the documented canonicalisation; decode(encode(x')) is a fixed point. Debug+release, ASan in thorough.",
     "Trusted: the independent walker and the canonicalisation rules (extended-length bit, order, AS4 reconciliation per RFC 6793); lossy cases RFC 6793 itself allows are counted unjudged.",
@@ -47,6 +51,10 @@ add("C09", E2,
     "Runtime monitor: the full source-kind x receiver-role x cluster x confederation matrix (360 cells incl. echo variants) crossed with a covering set + random attribute vectors (every AS_PATH segment type, full 255-AS segment, next-hop kinds, MED, LOCAL_PREF, ORIGINATOR_ID, CLUSTER_LIST, AIGP, communities, opaque attributes, LLGR-stale sources, policy next-hop/MED actions) through both branches of the real process_nlri_change with a recording sink, judged by an expected_export function written from the statement; inbound is_as_loop / rx_update loop checks with the RIB read back; role and cluster-id derivation through accept_connection on TOML neighbour configs.",
     "Trusted: expected_export (Suppress | Send{attrs', nexthop'}); where the statement is silent (RS-client transparency, confed MED/next hop, policy MED on eBGP, LLGR to non-LLGR peers) nothing is judged. Debug profile only (E2).",
     "runtime monitoring: reference-function oracle over an enumerated configuration matrix x generated attribute vectors")
+add("C17", E2,
+    "Runtime monitor: (a) round trip attr_to_api->attr_from_api and nlri_to_api->net_from_api on values obtained by decoding hand-built UPDATEs for all 19 families and attribute kinds; (b) totality: directed + random API messages under catch_unwind, every accepted value checked by an independent validator written from the wire rules and then used (Table insert next to competing paths, apply_import with 13 conditions, RPKI validate, export for 5 roles, encode_to with 2/4-octet AS, display) - a panic there is a violation; (c) store-and-show through the real GrpcService add_path -> list_path -> delete_path for all families.",
+    "Trusted: the wire-rule validator and the documented canonicalisations of local_path (ORIGIN/AS_PATH defaults, ORIGINATOR_ID/CLUSTER_LIST/MP_UNREACH dropped, next hop as NEXT_HOP or MP_REACH). In-process calls, no gRPC transport. Debug profile only (E2).",
+    "runtime monitoring: round-trip + invariant-preservation oracle with use-after-accept probing of generated API inputs")
 add("C18", E2,
     "Runtime monitor on real threads: writer sessions (insert/remove/peer drop+re-up), a controller toggling import policy + soft_reset_in, and subscribers that subscribe/unsubscribe at random points run against the real TableManager with delay injection at the hook points between critical sections; after quiescence each subscription's folded event stream must equal iter_reach / iter_reach_post. Thorough adds ThreadSanitizer and Miri (different schedules per -Zmiri-seed). Schedules are sampled, not enumerated.",
     "Trusted: the fold (insert on reach, remove on withdraw, PeerDown clears the peer) and the ground truth read through the table's own iterators; GR stale retention not in scope.",
